@@ -343,6 +343,9 @@ def d3_companion(ctx):
     for d in live:
         val = branch_values.get(d.idx, d.value)
         exprs = [val]
+        if isinstance(val, ast.Name):
+            # the candidate is chosen in a local first (file_bin = ...; self.file_bin = file_bin): every definition of the local that can reach the store is a candidate
+            exprs += [x.value for x in du.reaching(val.id, d.stmt) if x.kind == "assign" and x.value is not None]
         # a lookup helper: its returned expressions carry the candidate suffixes
         for c in find(val, ast.Call):
             q_ = repo.resolve_call(fi, c)
